@@ -30,8 +30,8 @@ def body (p : Params) (ct : CT) (mm : Option Range) (range : Range) (ex : Bool) 
     else (.ok { range with incompat := true }, ex)
   | .set l => andLoop p true l range mm ex
   | .int l => andLoop p false l range mm ex
-  | .csv l => orFirst p l range mm ex
-  | .uni l => orFirst p l range mm ex
+  | .csv l => orFirst p true l range mm ex
+  | .uni l => orFirst p false l range mm ex
   | .exc l =>
     match l with
     | [] => (.abort, ex)
@@ -71,13 +71,13 @@ theorem Repr.upper {m : Range} {P : Int → Bool} (h : Repr m P) {y : Int} (hy :
   rw [e3]; exact canon_upper t hd hg hc y (by rw [hden, hy])
 
 theorem Repr.left_bnd {m : Range} {P : Int → Bool} (h : Repr m P) :
-    ∀ v, m.left = .val v → INTMAX_MIN < v ∧ v ≤ INTMAX_MAX := by
+    ∀ v, m.left = .val v → ASN_INTEGER_MIN < v ∧ v ≤ ASN_INTEGER_MAX := by
   obtain ⟨hd, t, e1, e2, _⟩ := h.ends
   have := (h.good hd (by rw [e1]; simp)).2.1
   rw [e2]; exact this
 
 theorem Repr.right_bnd {m : Range} {P : Int → Bool} (h : Repr m P) :
-    ∀ v, m.right = .val v → INTMAX_MIN ≤ v ∧ v < INTMAX_MAX := by
+    ∀ v, m.right = .val v → ASN_INTEGER_MIN ≤ v ∧ v < ASN_INTEGER_MAX := by
   obtain ⟨hd, t, e1, _, e3⟩ := h.ends
   have := (h.good ((hd :: t).getLast (by simp)) (by rw [e1]; exact List.getLast_mem _)).2.2
   rw [e3]; exact this
@@ -91,9 +91,9 @@ theorem repr_single {r : Range} (he : r.els = []) (hw : (⟨r.left, r.right⟩ :
   · rw [hl]; trivial
   · intro y; rw [hl]; simp
 
-/-- `MIN`, `MAX` or a literal strictly inside the `intmax_t` range -/
+/-- `MIN`, `MAX` or a literal strictly inside the range of `asn1c_integer_t` (the compiler's own limit) -/
 def EndOK : End → Prop
-  | .val v => INTMAX_MIN < v ∧ v < INTMAX_MAX
+  | .val v => ASN_INTEGER_MIN < v ∧ v < ASN_INTEGER_MAX
   | _ => True
 
 def Hard (r : Res) : Prop := r = .eperm ∨ r = .abort ∨ r = .fuel
@@ -118,29 +118,69 @@ theorem below_eq (e : End) (y : Int) : e.below y = Edge.leInt (match e with | .m
 theorem above_eq (e : End) (y : Int) : e.above y = Edge.geInt (match e with | .min => .min | .max => .max | .val z => .val z) y := by
   cases e <;> rfl
 
+/-- the strict edge check and the asserts of `_range_overlap` passed -/
+theorem intersection_strict_ok {range wth r : Range} {isOer : Bool}
+    (he : range.empty = false) (hwe : wth.empty = false)
+    (h : intersection range wth true isOer = .ok r) :
+    wth.leaves.all (edgesWithin range.leaves) = true ∧ wth.leaves.all Iv.ordered = true := by
+  unfold intersection at h
+  split_ifs at h with h1 h2
+  have hl : (interFlags range wth isOer).leaves = range.leaves := by
+    unfold interFlags; split <;> rfl
+  have hfe : (interFlags range wth isOer).empty = false := by
+    unfold interFlags; split <;> simp [he]
+  unfold interCore at h
+  simp only [hfe, hwe, Bool.or_self, Bool.false_eq_true, if_false] at h
+  have hl' : ({ interFlags range wth isOer with empty := false } : Range).leaves = range.leaves := hl
+  rw [hl'] at h
+  split_ifs at h with h3 h4
+  simp only [Bool.true_and, Bool.not_eq_eq_eq_not, Bool.not_true] at h3 h4
+  constructor
+  · cases hx : wth.leaves.all (edgesWithin range.leaves) with
+    | true => rfl
+    | false => simp [hx] at h3
+  · cases hx : wth.leaves.all Iv.ordered with
+    | true => rfl
+    | false => simp [hx] at h4
 
-
+/-- `ACT_EL_VALUE` / `ACT_EL_RANGE` as the grammar writes them (lower end: value or MIN, upper end: value or
+    MAX): the function fails (an end point outside the parent: EPERM, lower > upper: EPERM / assert) or
+    returns the canonical form of the — then non-empty — set `lo..hi ∩ P`. -/
 theorem leaf_spec {p : Params} {mm : Option Range} {P : ISet} (range : Range) (lo hi : End)
     (hmm : mmEff p mm = mm) (hM : MM p mm P)
-    (hne : ∃ y, lo.below y = true ∧ hi.above y = true ∧ P y = true) (hl : EndOK lo) (hh : EndOK hi) :
+    (hlo : lo ≠ .max) (hhi : hi ≠ .min) (hl : EndOK lo) (hh : EndOK hi) :
     ∃ res, leaf p (endV lo) (endV hi) mm range true = (res, true) ∧
       (Hard res ∨ ∃ r, res = .ok r ∧ Repr r (fun y => lo.below y && hi.above y && P y) ∧ r.Clean) := by
-  obtain ⟨y0, hy1, hy2, hy3⟩ := hne
   have hrepr := hM.repr; have hclean := hM.clean
   rw [hmm] at hrepr hclean
   unfold leaf
   simp only [Bool.not_true, Bool.false_eq_true, if_false]
+  -- the "Empty range" diagnostic
+  split_ifs with hrev
+  · exact ⟨_, rfl, Or.inl (Or.inl rfl)⟩
+  have hord : ∀ a b, lo = .val a → hi = .val b → a ≤ b := by
+    intro a b e1 e2; subst e1; subst e2
+    simp [endV] at hrev; exact hrev
   cases mm with
   | none =>
     have huniv := hM.univ hmm
-    -- no parent: the range as written
     refine ⟨_, rfl, Or.inr ⟨_, rfl, ?_⟩⟩
-    have hlo : lo ≠ .max := by intro h; subst h; simp [End.below] at hy1
-    have hhi : hi ≠ .min := by intro h; subst h; simp [End.above] at hy2
     set r0 : Range := { Range.new with left := fillEdge (endV lo) none, right := fillEdge (endV hi) none } with hr0
     have hmem : ∀ y, (⟨r0.left, r0.right⟩ : Iv).mem y = (lo.below y && hi.above y) := by
       intro y; cases lo <;> cases hi <;> simp [hr0, Iv.mem, fillEdge, endV, End.below, End.above]
-    have hwf : (⟨r0.left, r0.right⟩ : Iv).wf := Iv.mem_wf (x := y0) (by rw [hmem]; simp [hy1, hy2])
+    have hwf : (⟨r0.left, r0.right⟩ : Iv).wf := by
+      cases lo with
+      | max => exact absurd rfl hlo
+      | min =>
+        cases hi with
+        | min => exact absurd rfl hhi
+        | max => simp [hr0, Iv.wf, fillEdge, endV]
+        | val b => simp [hr0, Iv.wf, fillEdge, endV]
+      | val a =>
+        cases hi with
+        | min => exact absurd rfl hhi
+        | max => simp [hr0, Iv.wf, fillEdge, endV]
+        | val b => have := hord a b rfl rfl; simp [hr0, Iv.wf, fillEdge, endV, this]
     have hbnd : (⟨r0.left, r0.right⟩ : Iv).bnd := by
       cases lo <;> cases hi <;> simp_all [Iv.bnd, fillEdge, endV, EndOK] <;> omega
     have hcan : canonicalize r0 = r0 := by
@@ -153,25 +193,66 @@ theorem leaf_spec {p : Params} {mm : Option Range} {P : ISet} (range : Range) (l
     rw [hmem y, huniv y]; simp
   | some m =>
     simp only [rangeOf] at hrepr hclean
-    have hlo : lo ≠ .max := by intro h; subst h; simp [End.below] at hy1
-    have hhi : hi ≠ .min := by intro h; subst h; simp [End.above] at hy2
     set r0 : Range := { Range.new with left := fillEdge (endV lo) (some m), right := fillEdge (endV hi) (some m) } with hr0
     have hmem : ∀ y, P y = true → (⟨r0.left, r0.right⟩ : Iv).mem y = (lo.below y && hi.above y) := by
       intro y hy
       have h1 := hrepr.lower hy; have h2 := hrepr.upper hy
       cases lo <;> cases hi <;> simp_all [Iv.mem, fillEdge, endV, End.below, End.above]
-    have hwf : (⟨r0.left, r0.right⟩ : Iv).wf := Iv.mem_wf (x := y0) (by rw [hmem y0 hy3]; simp [hy1, hy2])
-    have hbnd : (⟨r0.left, r0.right⟩ : Iv).bnd := by
-      have b1 := hrepr.left_bnd; have b2 := hrepr.right_bnd
-      constructor
-      · intro v hv
-        cases lo <;> simp_all [fillEdge, endV, EndOK] <;> omega
-      · intro v hv
-        cases hi <;> simp_all [fillEdge, endV, EndOK] <;> omega
-    have hB : Repr r0 (Iv.mem ⟨r0.left, r0.right⟩) := repr_single rfl hwf hbnd rfl rfl
     cases hi' : intersection m r0 true p.strictOER with
     | error e => exact ⟨_, by simp only [hi'], Or.inl (hard_ofIErr e)⟩
     | ok c =>
+      -- the strict edge check passed: an end point of the leaf lies in the parent set
+      obtain ⟨hin, hor⟩ := intersection_strict_ok hrepr.empty rfl hi'
+      have hl0 : r0.leaves = [⟨r0.left, r0.right⟩] := leaves_of_els_nil rfl
+      rw [hl0] at hin hor
+      simp only [List.all_cons, List.all_nil, Bool.and_true] at hin hor
+      have hwithin : ∀ v, edgeWithin m.leaves (.val v) = true → P v = true := by
+        intro v hv
+        rw [← hrepr.den v]
+        obtain ⟨i, hi1, hi2⟩ := List.any_eq_true.mp hv
+        refine den_eq_true.mpr ⟨i, hi1, ?_⟩
+        obtain ⟨il, ih⟩ := i
+        cases il <;> cases ih <;> simp_all [Iv.mem]
+      obtain ⟨yP, hyP⟩ := hrepr.nonempty
+      have hml : m.left ≠ .max := by
+        obtain ⟨hd, t, e1, e2, _⟩ := hrepr.ends
+        rw [e2]; exact (hrepr.good hd (by rw [e1]; simp)).1.1
+      have hmr : m.right ≠ .min := by
+        obtain ⟨hd, t, e1, _, e3⟩ := hrepr.ends
+        rw [e3]; exact (hrepr.good ((hd :: t).getLast (by simp)) (by rw [e1]; exact List.getLast_mem _)).1.2.1
+      have hne : ∃ y0, P y0 = true ∧ lo.below y0 = true ∧ hi.above y0 = true := by
+        simp only [edgesWithin, Bool.and_eq_true] at hin
+        obtain ⟨hw1, hw2⟩ := hin
+        simp only [Iv.ordered, decide_eq_true_eq] at hor
+        cases hlo' : lo with
+        | max => exact absurd hlo' hlo
+        | min =>
+          cases hhi' : hi with
+          | min => exact absurd hhi' hhi
+          | max => exact ⟨yP, hyP, rfl, rfl⟩
+          | val b =>
+            have : r0.right = .val b := by simp [hr0, fillEdge, endV, hhi']
+            rw [this] at hw2
+            exact ⟨b, hwithin b hw2, rfl, by simp [End.above]⟩
+        | val a =>
+          have ha : r0.left = .val a := by simp [hr0, fillEdge, endV, hlo']
+          rw [ha] at hw1
+          cases hhi' : hi with
+          | min => exact absurd hhi' hhi
+          | max => exact ⟨a, hwithin a hw1, by simp [End.below], rfl⟩
+          | val b =>
+            have := hord a b hlo' hhi'
+            exact ⟨a, hwithin a hw1, by simp [End.below], by simp [End.above, this]⟩
+      obtain ⟨y0, hy3, hy1, hy2⟩ := hne
+      have hwf : (⟨r0.left, r0.right⟩ : Iv).wf := Iv.mem_wf (x := y0) (by rw [hmem y0 hy3]; simp [hy1, hy2])
+      have hbnd : (⟨r0.left, r0.right⟩ : Iv).bnd := by
+        have b1 := hrepr.left_bnd; have b2 := hrepr.right_bnd
+        constructor
+        · intro v hv
+          cases lo <;> simp_all [fillEdge, endV, EndOK] <;> omega
+        · intro v hv
+          cases hi <;> simp_all [fillEdge, endV, EndOK] <;> omega
+      have hB : Repr r0 (Iv.mem ⟨r0.left, r0.right⟩) := repr_single rfl hwf hbnd rfl rfl
       refine ⟨.ok (canonicalize c), by simp only [hi'], Or.inr ⟨_, rfl, ?_⟩⟩
       obtain ⟨q1, q2, q3, q4⟩ := inter_canon hrepr hB ⟨y0, hy3, by rw [hmem y0 hy3]; simp [hy1, hy2]⟩ hi'
       refine ⟨q1.congr (fun y => ?_), ?_, ?_, ?_⟩
@@ -194,23 +275,24 @@ def IsElem : Cons → Prop
   | .paren a => IsElem a
   | _ => False
 
-/-- no operand denotes the empty set (relative to the parent `P`) -/
-def NonDeg (P : ISet) : Cons → Prop
-  | .single v => P v = true
-  | .range lo hi => ∃ y, lo.below y = true ∧ hi.above y = true ∧ P y = true
-  | .union a b => NonDeg P a ∧ NonDeg P b
-  | .inter a b => NonDeg P a ∧ NonDeg P b ∧ ∃ y, visible P a y = true ∧ visible P b y = true
-  | .except a _ => NonDeg P a
-  | .paren a => NonDeg P a
-  | .size a => NonDeg P a
-  | .ext r => NonDeg P r
-  | .exta r _ => NonDeg P r
-  | .serial a b => NonDeg P a ∧ NonDeg (visible P a) b
-  | .refine a b => NonDeg P a ∧ NonDeg (visible P a) b
+/-- value ranges as the X.680 grammar writes them: `LowerEndValue ::= Value | MIN`,
+    `UpperEndValue ::= Value | MAX` (asn1p_y.y has the same two rules) -/
+def Written : Cons → Prop
+  | .single _ => True
+  | .range lo hi => lo ≠ .max ∧ hi ≠ .min
+  | .union a b => Written a ∧ Written b
+  | .inter a b => Written a ∧ Written b
+  | .except a _ => Written a
+  | .paren a => Written a
+  | .size a => Written a
+  | .ext r => Written r
+  | .exta r a => Written r ∧ Written a
+  | .serial a b => Written a ∧ Written b
+  | .refine a b => Written a ∧ Written b
 
-/-- every literal that the compiler looks at lies strictly inside the `intmax_t` range -/
+/-- every literal that the compiler looks at lies strictly inside the range of `asn1c_integer_t` -/
 def LitsOK : Cons → Prop
-  | .single v => INTMAX_MIN < v ∧ v < INTMAX_MAX
+  | .single v => ASN_INTEGER_MIN < v ∧ v < ASN_INTEGER_MAX
   | .range lo hi => EndOK lo ∧ EndOK hi
   | .union a b => LitsOK a ∧ LitsOK b
   | .inter a b => LitsOK a ∧ LitsOK b
@@ -240,27 +322,6 @@ theorem visible_sub : ∀ (e : Cons) (P : ISet) (y : Int), visible P e y = true 
   | exta r a ih _ => intro P y h; exact ih P y h
   | serial a b iha ihb => intro P y h; exact iha P y (ihb _ y h)
   | refine a b iha ihb => intro P y h; exact iha P y (ihb _ y h)
-
-theorem nonDeg_nonempty : ∀ (e : Cons) (P : ISet), IsElem e → NonDeg P e → ∃ y, visible P e y = true := by
-  intro e
-  induction e with
-  | single v => intro P _ h; exact ⟨v, by simp only [NonDeg] at h; simp [visible, h]⟩
-  | range lo hi => intro P _ ⟨y, h1, h2, h3⟩; exact ⟨y, by simp [visible, h1, h2, h3]⟩
-  | union a b iha _ =>
-    intro P hi h
-    obtain ⟨y, hy⟩ := iha P hi.1 h.1
-    exact ⟨y, by simp [visible, hy]⟩
-  | inter a b _ _ =>
-    intro P _ h
-    obtain ⟨y, h1, h2⟩ := h.2.2
-    exact ⟨y, by simp [visible, h1, h2]⟩
-  | except a b iha _ => intro P hi h; exact iha P hi.1 h
-  | paren a iha => intro P hi h; exact iha P hi h
-  | size a _ => intro P hi _; exact absurd hi (by simp [IsElem])
-  | ext r _ => intro P hi _; exact absurd hi (by simp [IsElem])
-  | exta r a _ _ => intro P hi _; exact absurd hi (by simp [IsElem])
-  | serial a b _ _ => intro P hi _; exact absurd hi (by simp [IsElem])
-  | refine a b _ _ => intro P hi _; exact absurd hi (by simp [IsElem])
 
 
 
@@ -319,39 +380,65 @@ theorem andLoop_set_ok {p : Params} {c : CT} {rest : List CT} {range : Range} {m
       | .ok r => andLoop p true rest (canonicalize r) mm ex' :=
   andLoop_cons_ok (s := true) (by simpa using h) hi hcl
 
-theorem orStep_ok {range tmp : Range} {ex' : Bool} (hi : tmp.incompat = false) (he : tmp.empty = false) :
-    orStep range (.ok tmp, ex') = .inr (mergeIn range tmp, ex') := by
-  simp [orStep, hi, he]
-
 theorem orStep_hard {range : Range} {res : Res} {ex' : Bool} (hh : Hard res) :
     orStep range (res, ex') = .inl (res, ex') := by
   rcases hh with rfl | rfl | rfl <;> rfl
 
-theorem orFirst_cons_hard {p : Params} {c : CT} {rest : List CT} {range : Range} {mm : Option Range}
+theorem orStep_erange (range : Range) (ex' : Bool) :
+    orStep range (.erange, ex') = .inr ({ range with ext := true, notOER := true }, ex') := rfl
+
+theorem cutAtMarker_ok (p : Params) (csv : Bool) (t : Range) : cutAtMarker p csv (.ok t) = false := rfl
+theorem cutAtMarker_uni (p : Params) (res : Res) : cutAtMarker p false res = false := by
+  cases res <;> rfl
+
+theorem orFirst_cons_hard {p : Params} {csv : Bool} {c : CT} {rest : List CT} {range : Range} {mm : Option Range}
     {ex ex' : Bool} {res : Res} (h : compute p c mm ex = (res, ex')) (hh : Hard res) :
-    orFirst p (c :: rest) range mm ex = (res, ex') := by
+    orFirst p csv (c :: rest) range mm ex = (res, ex') := by
   rw [orFirst, h]
   rcases hh with rfl | rfl | rfl <;> rfl
 
-theorem orFirst_cons_ok {p : Params} {c : CT} {rest : List CT} {range : Range} {mm : Option Range}
-    {ex ex' : Bool} {tmp : Range} (h : compute p c mm ex = (.ok tmp, ex')) (hi : tmp.incompat = false) :
-    orFirst p (c :: rest) range mm ex =
+/-- the first loop grabbed `tmp`; the second loop starts with the same element -/
+theorem orFirst_cons_ok {p : Params} {csv : Bool} {c : CT} {rest : List CT} {range : Range} {mm : Option Range}
+    {ex : Bool} {tmp : Range} (h : compute p c mm ex = (.ok tmp, true)) (h' : compute p c mm true = (.ok tmp, true))
+    (hi : tmp.incompat = false) :
+    orFirst p csv (c :: rest) range mm ex =
       match orStep { tmp with ext := tmp.ext || range.ext, notOER := tmp.notOER || range.notOER,
-                              empty := tmp.empty || range.empty } (compute p c mm ex') with
+                              empty := tmp.empty || range.empty } (.ok tmp, true) with
       | .inl out => out
-      | .inr (r', ex'') => orRest p rest r' mm ex'' := by
+      | .inr (r', ex'') => orRest p csv rest r' mm ex'' := by
   rw [orFirst, h]
-  simp only [hi, Bool.false_eq_true, if_false]
+  simp only [hi, Bool.false_eq_true, if_false, h', cutAtMarker_ok]
   rfl
 
-theorem orRest_nil (p : Params) (range : Range) (mm : Option Range) (ex : Bool) :
-    orRest p [] range mm ex = orFinish p range mm ex := by rw [orRest]
+theorem orRest_nil (p : Params) (csv : Bool) (range : Range) (mm : Option Range) (ex : Bool) :
+    orRest p csv [] range mm ex = orFinish p range mm ex := by rw [orRest]
 
-theorem orRest_cons (p : Params) (c : CT) (rest : List CT) (range : Range) (mm : Option Range) (ex : Bool) :
-    orRest p (c :: rest) range mm ex =
-      match orStep range (compute p c mm ex) with
+theorem orRest_cons_ok {p : Params} {csv : Bool} {c : CT} {rest : List CT} {range : Range} {mm : Option Range}
+    {ex ex' : Bool} {tmp : Range} (h : compute p c mm ex = (.ok tmp, ex')) :
+    orRest p csv (c :: rest) range mm ex =
+      match orStep range (.ok tmp, ex') with
       | .inl out => out
-      | .inr (r', ex') => orRest p rest r' mm ex' := by rw [orRest]; rfl
+      | .inr (r', ex'') => orRest p csv rest r' mm ex'' := by
+  rw [orRest, h]
+  simp only [cutAtMarker_ok, Bool.false_eq_true, if_false]
+  rfl
+
+theorem orRest_cons_hard {p : Params} {csv : Bool} {c : CT} {rest : List CT} {range : Range} {mm : Option Range}
+    {ex ex' : Bool} {res : Res} (h : compute p c mm ex = (res, ex')) (hh : Hard res) :
+    orRest p csv (c :: rest) range mm ex = (res, ex') := by
+  rw [orRest, h]
+  simp only [orStep_hard hh]
+
+/-- the extension marker in the second loop: the additions that follow are dropped when the
+    `break` of the repaired code fires, merged otherwise -/
+theorem orRest_cons_marker {p : Params} {csv : Bool} {c : CT} {rest : List CT} {range : Range} {mm : Option Range}
+    {ex ex' : Bool} (h : compute p c mm ex = (.erange, ex')) :
+    orRest p csv (c :: rest) range mm ex =
+      if csv && (p.rootOnly || p.strictPER) then orFinish p { range with ext := true, notOER := true } mm ex'
+      else orRest p csv rest { range with ext := true, notOER := true } mm ex' := by
+  rw [orRest, h]
+  simp only [orStep_erange, cutAtMarker]
+  by_cases h' : (csv && (p.rootOnly || p.strictPER)) = true <;> simp [h']
 
 theorem orFinish_clean {p : Params} {range : Range} {mm : Option Range} {ex : Bool}
     (h : (canonicalize range).notPER = false) : orFinish p range mm ex = (.ok (canonicalize range), ex) := by
@@ -369,50 +456,150 @@ theorem leaves_ne_nil (r : Range) : r.leaves ≠ [] := by
   · simp
   · rename_i h; intro h'; rw [h'] at h; simp at h
 
-/-- the CSV/UNI accumulation of two canonical operands, canonicalised -/
-theorem or_two {ta tb range : Range} {Sa Sb : Int → Bool} (ha : Repr ta Sa) (ca : ta.Clean)
-    (hb : Repr tb Sb) (cb : tb.Clean) (hr : range.Clean) (hre : range.empty = false) :
-    let r : Range := { ta with ext := ta.ext || range.ext, notOER := ta.notOER || range.notOER,
-                               empty := ta.empty || range.empty }
-    let R := mergeIn (mergeIn r ta) tb
-    Repr (canonicalize R) (fun y => Sa y || Sb y) ∧ (canonicalize R).Clean := by
-  intro r R
-  have hels : R.els = (ta.els ++ ta.leaves) ++ tb.leaves := rfl
-  have hne : R.els ≠ [] := by
-    rw [hels]; intro h
-    have := leaves_ne_nil tb
-    simp at h; exact this h.2.2
-  have hg : Good R.els := by
-    rw [hels]; intro p hp
-    simp only [List.mem_append] at hp
-    rcases hp with (hp | hp) | hp
-    · exact ha.good p (els_sub_leaves ta p hp)
-    · exact ha.good p hp
-    · exact hb.good p hp
-  have hd : ∀ y, den R.els y = (Sa y || Sb y) := by
-    intro y
-    rw [hels, den_append, den_append, ha.den y, hb.den y]
-    have : den ta.els y = true → Sa y = true := by
-      intro h
-      obtain ⟨i, hi, hy⟩ := den_eq_true.mp h
-      rw [← ha.den y]; exact den_eq_true.mpr ⟨i, els_sub_leaves ta i hi, hy⟩
-    cases h1 : den ta.els y <;> cases h2 : Sa y <;> simp_all
-  have hemp : R.empty = false := by
-    show (ta.empty || range.empty) = false
-    rw [ha.empty, hre]; rfl
-  have hinc : R.incompat = false := ha.incompat
-  obtain ⟨_, _, _, _, c7, _, c9, c10⟩ := canonicalize_ne hne hg
-  refine ⟨repr_of_canonicalize hne hg hd hemp hinc, ?_, ?_, ?_⟩
-  · rw [c7]; show ((ta.ext || range.ext || ta.ext) || tb.ext) = false
-    rw [ca.1, cb.1, hr.1]; rfl
-  · rw [c9]
-    show ((ta.notOER || range.notOER || ta.notOER || (ta.ext || range.ext || ta.ext)) || tb.notOER ||
-      ((ta.ext || range.ext || ta.ext) || tb.ext)) = false
-    rw [ca.1, cb.1, hr.1, ca.2.1, cb.2.1, hr.2.1]; rfl
-  · rw [c10]; show ((ta.notPER || ta.notPER) || tb.notPER) = false
-    rw [ca.2.2, cb.2.2]; rfl
+/-! ### the accumulator of the CSV/UNI loops -/
 
+/-- the accumulated `range` of the second loop: its elements denote `S` (nothing was merged in yet
+    ⇒ flagged empty, the elements are stale) -/
+def Acc (R : Range) (S : Int → Bool) : Prop :=
+  R.incompat = false ∧
+  ((R.empty = false ∧ R.els ≠ [] ∧ Good R.els ∧ ∀ y, den R.els y = S y) ∨ (R.empty = true ∧ ∀ y, S y = false))
 
+theorem Acc.congr {R : Range} {S S' : Int → Bool} (h : Acc R S) (e : ∀ y, S y = S' y) : Acc R S' := by
+  refine ⟨h.1, ?_⟩
+  rcases h.2 with ⟨a, b, c, d⟩ | ⟨a, b⟩
+  · exact Or.inl ⟨a, b, c, fun y => by rw [d y, e y]⟩
+  · exact Or.inr ⟨a, fun y => by rw [← e y, b y]⟩
+
+/-- flags do not matter for `Acc` -/
+theorem Acc.flags {R : Range} {S : Int → Bool} (h : Acc R S) (e o q : Bool) :
+    Acc { R with ext := e, notOER := o, notPER := q } S := h
+
+theorem den_els_leaves {ta : Range} {Sa : Int → Bool} (ha : Repr ta Sa) (y : Int) :
+    den (ta.els ++ ta.leaves) y = Sa y := by
+  rw [den_append, ha.den y]
+  have : den ta.els y = true → Sa y = true := by
+    intro h
+    obtain ⟨i, hi, hy⟩ := den_eq_true.mp h
+    rw [← ha.den y]; exact den_eq_true.mpr ⟨i, els_sub_leaves ta i hi, hy⟩
+  cases h1 : den ta.els y <;> cases h2 : Sa y <;> simp_all
+
+/-- the first operand: grabbed by the first loop, merged into itself by the second -/
+theorem acc_start {ta range : Range} {Sa : Int → Bool} (ha : ReprE ta Sa) (hre : range.empty = false) (ex : Bool) :
+    ∃ R, orStep { ta with ext := ta.ext || range.ext, notOER := ta.notOER || range.notOER,
+                          empty := ta.empty || range.empty } (.ok ta, ex) = .inr (R, ex) ∧ Acc R Sa ∧
+      (ta.Clean → range.Clean → R.Clean) := by
+  rcases ha with ha | ha
+  · refine ⟨mergeIn { ta with ext := ta.ext || range.ext, notOER := ta.notOER || range.notOER,
+                                empty := ta.empty || range.empty } ta,
+      by simp [orStep, ha.incompat, ha.empty, hre], ⟨ha.incompat, Or.inl ⟨?_, ?_, ?_, ?_⟩⟩, ?_⟩
+    · show (ta.empty || range.empty) = false
+      rw [ha.empty, hre]; rfl
+    · show ta.els ++ ta.leaves ≠ []
+      intro h; have := leaves_ne_nil ta; simp at h; exact this h.2
+    · show Good (ta.els ++ ta.leaves)
+      intro p hp
+      rcases List.mem_append.mp hp with hp | hp
+      · exact ha.good p (els_sub_leaves ta p hp)
+      · exact ha.good p hp
+    · exact fun y => den_els_leaves ha y
+    · intro ca cr
+      refine ⟨?_, ?_, ?_⟩
+      · show (ta.ext || range.ext || ta.ext) = false
+        rw [ca.1, cr.1]; rfl
+      · show (ta.notOER || range.notOER || ta.notOER || (ta.ext || range.ext || ta.ext)) = false
+        rw [ca.1, cr.1, ca.2.1, cr.2.1]; rfl
+      · show (ta.notPER || ta.notPER) = false
+        rw [ca.2.2]; rfl
+  · refine ⟨{ ta with ext := ta.ext || range.ext || ta.ext, notOER := ta.notOER || range.notOER || ta.notOER,
+                      empty := ta.empty || range.empty },
+      by simp [orStep, ha.2.2, ha.2.1], ⟨ha.2.2, Or.inr ⟨?_, ha.1⟩⟩, ?_⟩
+    · show (ta.empty || range.empty) = true
+      rw [ha.2.1]; rfl
+    · intro ca cr
+      refine ⟨?_, ?_, ?_⟩
+      · show (ta.ext || range.ext || ta.ext) = false
+        rw [ca.1, cr.1]; rfl
+      · show (ta.notOER || range.notOER || ta.notOER) = false
+        rw [ca.2.1, cr.2.1]; rfl
+      · exact ca.2.2
+
+/-- a further operand of the union -/
+theorem acc_step {R tb : Range} {S Sb : Int → Bool} (hR : Acc R S) (hb : ReprE tb Sb) (ex : Bool) :
+    ∃ R', orStep R (.ok tb, ex) = .inr (R', ex) ∧ Acc R' (fun y => S y || Sb y) ∧
+      (tb.Clean → R.Clean → R'.Clean) ∧
+      (R.ext = true → R.notOER = true → R'.ext = true ∧ R'.notOER = true) ∧
+      (tb.notPER = false → R'.notPER = R.notPER) := by
+  rcases hb with hb | hb
+  · -- a non-empty operand
+    rcases hR.2 with ⟨r1, r2, r3, r4⟩ | ⟨r1, r2⟩
+    · refine ⟨mergeIn R tb, by simp [orStep, hb.incompat, hb.empty, r1], ⟨hR.1, Or.inl ⟨r1, ?_, ?_, ?_⟩⟩, ?_, ?_, ?_⟩
+      · show R.els ++ tb.leaves ≠ []
+        intro h; have := leaves_ne_nil tb; simp at h; exact this h.2
+      · exact Good.append r3 hb.good
+      · intro y; show den (R.els ++ tb.leaves) y = _
+        rw [den_append, r4 y, hb.den y]
+      · intro cb cr
+        refine ⟨?_, ?_, ?_⟩
+        · show (R.ext || tb.ext) = false
+          rw [cr.1, cb.1]; rfl
+        · show (R.notOER || tb.notOER || (R.ext || tb.ext)) = false
+          rw [cr.1, cb.1, cr.2.1, cb.2.1]; rfl
+        · show (R.notPER || tb.notPER) = false
+          rw [cr.2.2, cb.2.2]; rfl
+      · intro e1 e2
+        exact ⟨by show (R.ext || tb.ext) = true; rw [e1]; rfl,
+               by show (R.notOER || tb.notOER || (R.ext || tb.ext)) = true; rw [e2]; rfl⟩
+      · intro e; show (R.notPER || tb.notPER) = R.notPER
+        rw [e]; simp
+    · refine ⟨mergeIn { R with els := [], empty := false } tb, by simp [orStep, hb.incompat, hb.empty, r1],
+        ⟨hR.1, Or.inl ⟨rfl, ?_, ?_, ?_⟩⟩, ?_, ?_, ?_⟩
+      · show [] ++ tb.leaves ≠ []
+        simpa using leaves_ne_nil tb
+      · show Good ([] ++ tb.leaves)
+        simpa using hb.good
+      · intro y; show den ([] ++ tb.leaves) y = _
+        rw [List.nil_append, hb.den y]; show Sb y = (S y || Sb y); rw [r2 y]; rfl
+      · intro cb cr
+        refine ⟨?_, ?_, ?_⟩
+        · show (R.ext || tb.ext) = false
+          rw [cr.1, cb.1]; rfl
+        · show (R.notOER || tb.notOER || (R.ext || tb.ext)) = false
+          rw [cr.1, cb.1, cr.2.1, cb.2.1]; rfl
+        · show (R.notPER || tb.notPER) = false
+          rw [cr.2.2, cb.2.2]; rfl
+      · intro e1 e2
+        exact ⟨by show (R.ext || tb.ext) = true; rw [e1]; rfl,
+               by show (R.notOER || tb.notOER || (R.ext || tb.ext)) = true; rw [e2]; rfl⟩
+      · intro e; show (R.notPER || tb.notPER) = R.notPER
+        rw [e]; simp
+  · -- "Ignore empty constraints in OR logic"
+    refine ⟨{ R with ext := R.ext || tb.ext, notOER := R.notOER || tb.notOER },
+      by simp [orStep, hb.2.2, hb.2.1], ?_, ?_, ?_, ?_⟩
+    · exact (Acc.flags hR _ _ _).congr (fun y => by rw [hb.1 y]; simp)
+    · intro cb cr
+      refine ⟨?_, ?_, cr.2.2⟩
+      · show (R.ext || tb.ext) = false
+        rw [cr.1, cb.1]; rfl
+      · show (R.notOER || tb.notOER) = false
+        rw [cr.2.1, cb.2.1]; rfl
+    · intro e1 e2
+      exact ⟨by show (R.ext || tb.ext) = true; rw [e1]; rfl, by show (R.notOER || tb.notOER) = true; rw [e2]; rfl⟩
+    · intro _; rfl
+
+/-- the final `_range_canonicalize` of the CSV/UNI case -/
+theorem acc_finish {R : Range} {S : Int → Bool} (hR : Acc R S) : ReprE (canonicalize R) S := by
+  obtain ⟨f1, _, f3, _, _⟩ := canonicalize_flags R
+  rcases hR.2 with ⟨r1, r2, r3, r4⟩ | ⟨r1, r2⟩
+  · exact Or.inl (repr_of_canonicalize r2 r3 r4 r1 hR.1)
+  · exact Or.inr ⟨r2, by rw [f1, r1], by rw [f3, hR.1]⟩
+
+theorem orFinish_acc {p : Params} {R : Range} {mm : Option Range} {ex : Bool} (h : R.notPER = false) :
+    orFinish p R mm ex = (.ok (canonicalize R), ex) :=
+  orFinish_clean (by rw [(canonicalize_flags R).2.2.2.2, h])
+
+theorem clean_canonicalize {R : Range} (h : R.Clean) : (canonicalize R).Clean := by
+  obtain ⟨_, f2, _, f4, f5⟩ := canonicalize_flags R
+  exact ⟨by rw [f2, h.1], by rw [f4, h.2.1], by rw [f5, h.2.2]⟩
 
 theorem MM.of_some {p : Params} {range : Range} {P : ISet} (hr : Repr range P) (hc : range.Clean) :
     MM p (some range) P := by
@@ -423,56 +610,62 @@ theorem MM.of_some {p : Params} {range : Range} {P : ISet} (hr : Repr range P) (
   · rw [e]; intro h; cases h
 
 /-- **asn1constraint_compute_constraint_range on an element tree** computes the canonical form of
-    `Spec.visible P e` (P = the parent's set), with clear flags — or fails. -/
+    `Spec.visible P e` (P = the parent's set; flagged empty when that set is empty), with clear
+    flags — or fails. -/
 theorem compute_elem {p : Params} (hc : p.compat = true) (hn : p.nkm = false) :
-    ∀ (e : Cons), IsElem e → ∀ (mm0 : Option Range) (P : ISet), MM p mm0 P → NonDeg P e → LitsOK e →
+    ∀ (e : Cons), IsElem e → ∀ (mm0 : Option Range) (P : ISet), MM p mm0 P → Written e → LitsOK e →
       ∃ res, compute p (elemCT e) mm0 true = (res, true) ∧
-        (Hard res ∨ ∃ r, res = .ok r ∧ Repr r (visible P e) ∧ r.Clean) := by
+        (Hard res ∨ ∃ r, res = .ok r ∧ ReprE r (visible P e) ∧ r.Clean) := by
   intro e
   induction e with
   | single v =>
-    intro _ mm0 P hM hnd hl
+    intro _ mm0 P hM _ hl
     rw [show elemCT (.single v) = .value (.num v) from rfl, compute_eq_body hc hn _ _ _ hM.clean]
     obtain ⟨res, h1, h2⟩ := leaf_spec (p := p) (P := P) (rangeOf (mmEff p mm0)) (.val v) (.val v)
-      (mmEff_idem p mm0) hM.eff ⟨v, by simp [End.below], by simp [End.above], hnd⟩ hl hl
+      (mmEff_idem p mm0) hM.eff (by simp) (by simp) hl hl
     refine ⟨res, h1, ?_⟩
     rcases h2 with h2 | ⟨r, e1, e2, e3⟩
     · exact Or.inl h2
-    · refine Or.inr ⟨r, e1, e2.congr (fun y => ?_), e3⟩
+    · refine Or.inr ⟨r, e1, Or.inl (e2.congr (fun y => ?_)), e3⟩
       simp only [visible, End.below, End.above]
       congr 1
       rw [Bool.eq_iff_iff]; simp; omega
   | range lo hi =>
-    intro _ mm0 P hM hnd hl
+    intro _ mm0 P hM hw hl
     rw [show elemCT (.range lo hi) = .range (endV lo) (endV hi) from rfl, compute_eq_body hc hn _ _ _ hM.clean]
-    exact leaf_spec (p := p) (P := P) (rangeOf (mmEff p mm0)) lo hi (mmEff_idem p mm0) hM.eff hnd hl.1 hl.2
+    obtain ⟨res, h1, h2⟩ := leaf_spec (p := p) (P := P) (rangeOf (mmEff p mm0)) lo hi (mmEff_idem p mm0) hM.eff
+      hw.1 hw.2 hl.1 hl.2
+    refine ⟨res, h1, ?_⟩
+    rcases h2 with h2 | ⟨r, e1, e2, e3⟩
+    · exact Or.inl h2
+    · exact Or.inr ⟨r, e1, Or.inl e2, e3⟩
   | union a b iha ihb =>
-    intro hi mm0 P hM hnd hl
+    intro hi mm0 P hM hw hl
     rw [show elemCT (.union a b) = .uni [elemCT a, elemCT b] from rfl, compute_eq_body hc hn _ _ _ hM.clean]
-    show ∃ res, orFirst p [elemCT a, elemCT b] (rangeOf (mmEff p mm0)) (mmEff p mm0) true = (res, true) ∧ _
-    obtain ⟨ra, hra, ha⟩ := iha hi.1 (mmEff p mm0) P hM.eff hnd.1 hl.1
-    obtain ⟨rb, hrb, hb⟩ := ihb hi.2 (mmEff p mm0) P hM.eff hnd.2 hl.2
+    show ∃ res, orFirst p false [elemCT a, elemCT b] (rangeOf (mmEff p mm0)) (mmEff p mm0) true = (res, true) ∧ _
+    obtain ⟨ra, hra, ha⟩ := iha hi.1 (mmEff p mm0) P hM.eff hw.1 hl.1
+    obtain ⟨rb, hrb, hb⟩ := ihb hi.2 (mmEff p mm0) P hM.eff hw.2 hl.2
     rcases ha with ha | ⟨ta, rfl, hta, cta⟩
     · exact ⟨ra, orFirst_cons_hard hra ha, Or.inl ha⟩
-    · rw [orFirst_cons_ok hra hta.incompat, hra]
-      rw [orStep_ok hta.incompat (by simp [hta.empty])]
+    · rw [orFirst_cons_ok hra hra hta.incompat]
+      obtain ⟨R1, s1, a1, c1⟩ := acc_start hta hM.repr.empty true
+      rw [s1]
       simp only
-      rw [orRest_cons, hrb]
       rcases hb with hb | ⟨tb, rfl, htb, ctb⟩
-      · rw [orStep_hard hb]; exact ⟨rb, rfl, Or.inl hb⟩
-      · rw [orStep_ok htb.incompat htb.empty]
+      · rw [orRest_cons_hard hrb hb]; exact ⟨rb, rfl, Or.inl hb⟩
+      · rw [orRest_cons_ok hrb]
+        obtain ⟨R2, s2, a2, c2, _, _⟩ := acc_step a1 htb true
+        rw [s2]
         simp only
-        obtain ⟨q1, q2⟩ := or_two hta cta htb ctb hM.clean hM.repr.empty
-        rw [orRest_nil, orFinish_clean q2.2.2]
-        exact ⟨_, rfl, Or.inr ⟨_, rfl, q1, q2⟩⟩
+        have cl := c2 ctb (c1 cta hM.clean)
+        rw [orRest_nil, orFinish_acc cl.2.2]
+        exact ⟨_, rfl, Or.inr ⟨_, rfl, acc_finish a2, clean_canonicalize cl⟩⟩
   | inter a b iha ihb =>
-    intro hi mm0 P hM hnd hl
+    intro hi mm0 P hM hw hl
     rw [show elemCT (.inter a b) = .int [elemCT a, elemCT b] from rfl, compute_eq_body hc hn _ _ _ hM.clean]
     show ∃ res, andLoop p false [elemCT a, elemCT b] (rangeOf (mmEff p mm0)) (mmEff p mm0) true = (res, true) ∧ _
-    obtain ⟨ra, hra, ha⟩ := iha hi.1 (mmEff p mm0) P hM.eff hnd.1 hl.1
-    obtain ⟨rb, hrb, hb⟩ := ihb hi.2 (mmEff p mm0) P hM.eff hnd.2.1 hl.2
-    obtain ⟨y0, hy1, hy2⟩ := hnd.2.2
-    have hyP : P y0 = true := visible_sub a P y0 hy1
+    obtain ⟨ra, hra, ha⟩ := iha hi.1 (mmEff p mm0) P hM.eff hw.1 hl.1
+    obtain ⟨rb, hrb, hb⟩ := ihb hi.2 (mmEff p mm0) P hM.eff hw.2 hl.2
     rcases ha with ha | ⟨ta, rfl, hta, cta⟩
     · exact ⟨ra, andLoop_int_hard hra ha, Or.inl ha⟩
     · rw [andLoop_int_ok hra hta.incompat cta]
@@ -480,7 +673,7 @@ theorem compute_elem {p : Params} (hc : p.compat = true) (hn : p.nkm = false) :
       | error e => exact ⟨_, rfl, Or.inl (hard_ofIErr e)⟩
       | ok r1 =>
         simp only
-        obtain ⟨q1, q2, q3, q4⟩ := inter_canon hM.repr hta ⟨y0, hyP, hy1⟩ hi1
+        obtain ⟨q1, q2, q3, q4⟩ := inter_E (Or.inl hM.repr) hta hi1
         have c1 : (canonicalize r1).Clean := by
           refine ⟨?_, ?_, ?_⟩
           · rw [q2, hM.clean.1, cta.1]; rfl
@@ -494,25 +687,32 @@ theorem compute_elem {p : Params} (hc : p.compat = true) (hn : p.nkm = false) :
           | ok r2 =>
             simp only
             rw [andLoop_nil]
-            obtain ⟨s1, s2, s3, s4⟩ := inter_canon q1 htb ⟨y0, by simp [hyP, hy1], hy2⟩ hi2
-            refine ⟨_, rfl, Or.inr ⟨_, rfl, s1.congr (fun y => ?_), ?_, ?_, ?_⟩⟩
-            · simp only [visible]
-              cases h1 : visible P a y with
-              | true => simp [visible_sub a P y h1]
-              | false => simp
+            obtain ⟨s1, s2, s3, s4⟩ := inter_E q1 htb hi2
+            refine ⟨_, rfl, Or.inr ⟨_, rfl, ?_, ?_, ?_, ?_⟩⟩
+            · rcases s1 with s1 | s1
+              · refine Or.inl (s1.congr (fun y => ?_))
+                simp only [visible]
+                cases h1 : visible P a y with
+                | true => simp [visible_sub a P y h1]
+                | false => simp
+              · refine Or.inr ⟨fun y => ?_, s1.2⟩
+                have := s1.1 y
+                simp only [visible]
+                cases h1 : visible P a y with
+                | true => simpa [visible_sub a P y h1, h1] using this
+                | false => simp
             · rw [s2, c1.1, ctb.1]; rfl
             · rw [s4, c1.2.1, ctb.1]; rfl
             · rw [s3, c1.2.2, ctb.2.2]; simp
   | except a b iha _ =>
-    intro hi mm0 P hM hnd hl
+    intro hi mm0 P hM hw hl
     rw [show elemCT (.except a b) = .exc [elemCT a, elemCT b] from rfl, compute_eq_body hc hn _ _ _ hM.clean]
-    exact iha hi.1 (mmEff p mm0) P hM.eff hnd hl
+    exact iha hi.1 (mmEff p mm0) P hM.eff hw hl
   | paren a iha =>
-    intro hi mm0 P hM hnd hl
+    intro hi mm0 P hM hw hl
     rw [show elemCT (.paren a) = .set [elemCT a] from rfl, compute_eq_body hc hn _ _ _ hM.clean]
     show ∃ res, andLoop p true [elemCT a] (rangeOf (mmEff p mm0)) (mmEff p mm0) true = (res, true) ∧ _
-    obtain ⟨ra, hra, ha⟩ := iha hi (some (rangeOf (mmEff p mm0))) P (MM.of_some hM.repr hM.clean) hnd hl
-    obtain ⟨y0, hy0⟩ := nonDeg_nonempty a P hi hnd
+    obtain ⟨ra, hra, ha⟩ := iha hi (some (rangeOf (mmEff p mm0))) P (MM.of_some hM.repr hM.clean) hw hl
     rcases ha with ha | ⟨ta, rfl, hta, cta⟩
     · exact ⟨ra, andLoop_set_hard hra ha, Or.inl ha⟩
     · rw [andLoop_set_ok hra hta.incompat cta]
@@ -521,12 +721,20 @@ theorem compute_elem {p : Params} (hc : p.compat = true) (hn : p.nkm = false) :
       | ok r1 =>
         simp only
         rw [andLoop_nil]
-        obtain ⟨q1, q2, q3, q4⟩ := inter_canon hM.repr hta ⟨y0, visible_sub a P y0 hy0, hy0⟩ hi1
-        refine ⟨_, rfl, Or.inr ⟨_, rfl, q1.congr (fun y => ?_), ?_, ?_, ?_⟩⟩
-        · simp only [visible]
-          cases h1 : visible P a y with
-          | true => simp [visible_sub a P y h1]
-          | false => simp
+        obtain ⟨q1, q2, q3, q4⟩ := inter_E (Or.inl hM.repr) hta hi1
+        refine ⟨_, rfl, Or.inr ⟨_, rfl, ?_, ?_, ?_, ?_⟩⟩
+        · rcases q1 with q1 | q1
+          · refine Or.inl (q1.congr (fun y => ?_))
+            simp only [visible]
+            cases h1 : visible P a y with
+            | true => simp [visible_sub a P y h1]
+            | false => simp
+          · refine Or.inr ⟨fun y => ?_, q1.2⟩
+            have := q1.1 y
+            simp only [visible]
+            cases h1 : visible P a y with
+            | true => simp [visible_sub a P y h1, h1] at this
+            | false => rfl
         · rw [q2, hM.clean.1, cta.1]; rfl
         · rw [q4, hM.clean.2.1, cta.1]; rfl
         · rw [q3, hM.clean.2.2, cta.2.2]; simp
